@@ -36,20 +36,21 @@ type frame struct {
 }
 
 type Exec struct {
-	b        *Builder
-	prog     *ssa.Program
-	run      *HarnessRun
-	globals  map[*ssa.Global]*Cell
-	initDone map[*ssa.Package]bool
-	depth    int
-	steps    int64
-	curFrame *frame
-	panicFr  *frame
-	curPos   token.Pos
-	curFn    *ssa.Function
-	opaqueN  int
-	cellN    int
-	transcr  map[string]*big.Int
+	b         *Builder
+	prog      *ssa.Program
+	run       *HarnessRun
+	globals   map[*ssa.Global]*Cell
+	initDone  map[*ssa.Package]bool
+	depth     int
+	steps     int64
+	curFrame  *frame
+	panicFr   *frame
+	curPos    token.Pos
+	curFn     *ssa.Function
+	opaqueN   int
+	initOrder []*ssa.Package
+	cellN     int
+	transcr   map[string]*big.Int
 }
 
 func (e *Exec) posStr() string {
@@ -125,8 +126,8 @@ func (e *Exec) globalCell(g *ssa.Global) *Cell {
 	if c, ok := e.globals[g]; ok {
 		return c
 	}
-	// run package init lazily for circl packages
-	if g.Pkg != nil && e.isOwnPkg(g.Pkg) && !e.initDone[g.Pkg] {
+	// run package init lazily
+	if g.Pkg != nil && e.initAllowed(g.Pkg) && !e.initDone[g.Pkg] {
 		e.runInit(g.Pkg)
 		if c, ok := e.globals[g]; ok {
 			return c
@@ -138,6 +139,24 @@ func (e *Exec) globalCell(g *ssa.Global) *Cell {
 	return c
 }
 
+var initDeny = []string{"runtime", "internal/", "os", "syscall", "sync", "reflect", "time", "io/fs", "net", "unsafe", "testing", "flag", "log",
+	"math/rand", "crypto/rand", "crypto/internal/", "vendor/", "golang.org/x/sys", "unicode", "fmt", "path", "bufio", "context", "sort", "strings", "bytes",
+	"encoding/json", "encoding/base64", "encoding/hex", "encoding/pem", "encoding/asn1", "crypto/x509", "crypto/tls", "math/big", "crypto/elliptic",
+	"crypto/ecdsa", "crypto/ecdh", "crypto/rsa", "crypto/ed25519", "crypto/aes", "crypto/cipher", "crypto/des", "crypto/dsa", "hash/", "compress/", "iter", "slices", "maps", "cmp", "errors", "io", "strconv", "math", "math/bits", "encoding/binary", "crypto/subtle", "embed"}
+
+func (e *Exec) initAllowed(p *ssa.Package) bool {
+	if e.isOwnPkg(p) {
+		return true
+	}
+	path := p.Pkg.Path()
+	for _, d := range initDeny {
+		if path == d || (strings.HasSuffix(d, "/") && strings.HasPrefix(path, d)) || strings.HasPrefix(path, d+"/") {
+			return false
+		}
+	}
+	return true
+}
+
 func (e *Exec) isOwnPkg(p *ssa.Package) bool {
 	return strings.HasPrefix(p.Pkg.Path(), "github.com/cloudflare/circl")
 }
@@ -147,6 +166,7 @@ func (e *Exec) runInit(p *ssa.Package) {
 		return
 	}
 	e.initDone[p] = true
+	e.initOrder = append(e.initOrder, p)
 	// allocate all globals first
 	for _, m := range p.Members {
 		if g, ok := m.(*ssa.Global); ok {
@@ -174,6 +194,13 @@ func (e *Exec) runInit(p *ssa.Package) {
 const maxDepth = 400
 
 func (e *Exec) callFunction(fn *ssa.Function, args []Value, bind []Value) Value {
+	if len(e.run.stubFns) > 0 && !e.run.inInit {
+		key := strings.ReplaceAll(fn.String(), modPath+"/", "")
+		if sf, ok := e.run.stubFns[key]; ok && e.curFn != sf {
+			e.run.stubs["replace:"+key] = true
+			return e.callFunction(sf, args, nil)
+		}
+	}
 	if r, ok := e.intrinsic(fn, args); ok {
 		return r
 	}
@@ -181,10 +208,13 @@ func (e *Exec) callFunction(fn *ssa.Function, args []Value, bind []Value) Value 
 		e.unsupported("call of function without body: %s", fn.String())
 	}
 	if fn.Name() == "init" && fn.Pkg != nil && fn.Synthetic == "package initializer" {
-		if !e.isOwnPkg(fn.Pkg) {
+		if !e.initAllowed(fn.Pkg) {
 			return nil
 		}
-		e.initDone[fn.Pkg] = true
+		if !e.initDone[fn.Pkg] {
+			e.initDone[fn.Pkg] = true
+			e.initOrder = append(e.initOrder, fn.Pkg)
+		}
 	}
 	if fn.Pkg != nil && e.isOwnPkg(fn.Pkg) && !strings.HasPrefix(fn.Name(), "ZZ_") && !strings.HasPrefix(fn.Name(), "zz") && !e.run.inInit {
 		e.run.funcs[fn.String()] = true
@@ -207,7 +237,6 @@ func (e *Exec) callFunction(fn *ssa.Function, args []Value, bind []Value) Value 
 	e.depth--
 	return ret
 }
-
 
 func (e *Exec) execBody(fr *frame) (ret Value) {
 	fn := fr.fn
